@@ -102,7 +102,7 @@ class G:
         if k == NUM:
             prods = [(3, self.p_arith), (1, self.p_neg), (2, self.p_if), (2, self.p_path), (2, self.p_index), (2, self.p_call),
                      (2, self.p_count), (1, self.p_sum), (1, self.p_strlen), (2, self.p_ctxpath), (1, self.p_leaf),
-                     (1, self.p_closure), (1, self.p_closure_loop), (1, self.p_shadow_builtin), (1, self.p_recursion)]
+                     (1, self.p_closure), (1, self.p_closure_loop), (1, self.p_shadow_builtin), (1, self.p_recursion), (2, self.p_hetero)]
         elif k == STR:
             prods = [(3, self.p_concat), (2, self.p_if), (2, self.p_path), (2, self.p_index), (2, self.p_call), (2, self.p_ctxpath),
                      (1, self.p_leaf)]
@@ -372,6 +372,31 @@ class G:
             return ["filter", ["for", [[bn, ["dl", ["list", [udf]]]]], call], ["idx", ["num", "1"]]]
         return ["call", ["fn", [[bn, None]], call], [udf]]
 
+    def p_hetero(self, k, d, env):
+        """`hs` is bound to a list of contexts with DIFFERENT entry names (HETERO below): an entry name that only a later item has is
+        used by path, inside a filter, in a loop and in a quantified expression, directly followed by an operator"""
+        s = self.src
+        hk = env.get("hs")
+        if not (isinstance(hk, tuple) and hk and hk[0] == "hetero" and hk[1]):
+            return self.p_leaf(k, d, env)
+        key = s.choice(list(hk[1]))          # an entry name that some later item really has (an unknown name is not well-formed input)
+        other = self.expr(NUM, d - 1, {n: kk for n, kk in env.items() if n != "hs"}) if s.bool(0.5) else ["num", s.choice(NUM_LITS)]
+        op = s.choice(["*", "+", "-", "/"])
+        # (not generated: `hs.key` over the whole list -- the SUT leaves out the items that lack the entry, the reference puts null there;
+        # the DMN text says "list of e[i].key" and is read both ways)
+        form = s.choice(["index-path", "filter", "for", "some"])
+        hs = ["name", "hs"]
+        if form == "index-path":
+            return ["arith", op, ["path", ["filter", hs, ["idx", ["num", str(s.int(1, 4))]]], key], other]
+        if form == "filter":
+            return ["call", ["name", "count"], [["filter", hs, ["cmp", ">", ["arith", op, ["name", key], other], ["num", "5"]]]]]
+        if form == "for":
+            v = self.var(env)
+            return ["call", ["name", "count"], [["for", [[v, ["dl", hs]]], ["arith", op, ["path", ["name", v], key], other]]]]
+        v = self.var(env)
+        return ["if", [s.choice(["some", "every"]), [[v, hs]], ["cmp", "=", ["arith", op, ["path", ["name", v], key], other], ["num", "1"]]],
+                ["num", "1"], ["num", "0"]]
+
     def p_recursion(self, k, d, env):
         """well-founded recursion by self-application: (function(sf, sn) sf(sf, sn))(function(sg, sn) if sn <= 0 then B else sn OP sg(sg, sn - 1), N)
         -- terminates only because the branch of `if` that is not taken is not evaluated"""
@@ -457,6 +482,15 @@ class G:
             fk = ("fn", (NUM,), NUM)
             bindings.append(["f", {"feel": "function(p) p * 2 + 1"}])
             env["f"] = fk
+        if s.bool(0.3):
+            # a list of contexts whose items have different entry names; the names u2, u3, w5 occur nowhere else and never in the first item
+            items = [{"c": [["u1", {"n": s.choice(NUM_LITS)}]]}]
+            for _ in range(s.int(1, 3)):
+                ks = s.sample(["u1", "u2", "u3", "w5"], s.int(1, 3))
+                items.append({"c": [[kk, {"n": s.choice(NUM_LITS)}] for kk in sorted(ks)]})
+            bindings.append(["hs", {"l": items}])
+            later = sorted({kk for it in items[1:] for kk, _ in it["c"]} - {"u1"})
+            env["hs"] = ("hetero", tuple(later))
         if s.bool(0.1):
             # a name of the input context coincides with a built-in function: it shadows the built-in
             if s.bool(0.7):
